@@ -25,6 +25,10 @@ CHECKS = {
    technique="bounded exhaustive enumeration (E1) of all row / dimension-entry / column / command-line-order permutations on the real readers, Data object and CLI against a coordinate-keyed reference",
    text="All 8! row orders of a text file (6! of a sparse one) with the other input in a different order and with observations that differ between the files; all 72^2 joint permutations of the dimension entries of two in-memory inputs with extra entries, each under no option / -d / -tod / -t (NetCDF: dev(2) over the six permutations in quick, 72^2 in thorough); a repeated dimension value at every position (first occurrence wins, warning printed); all N! command-line orders of 2-3 (thorough 4) files x 4 metrics x 4 axes through the CLI; 720 x 6 x 2 column orders of the text header. Oracle: each cell of get_scores(All) and each sliced request equals the value the input's own file stores at those coordinates.",
    note="trusts: mc/ref/dataset.py; default thresholds (derived from the first file by design) are avoided by explicit -r"),
+ "C03": dict(level="model_checking", design="5/C03", e2=True,
+   technique="explicit-state BFS (E2) over the lattice of subsetting-option sets through the real driver (state = option set, transitions executed in path order, merged orders must have printed the same output), plus bounded exhaustive enumeration (E1) of option combinations on the Data API, against the reference selection model",
+   text="Two inputs (+ climatology) in mutually different orders with different coverage, 6 init times over 2 days at 00/06/12 UTC, 3 lead times, 4 stations with distinct id/lat/lon/elev. E1: each of -t -d -tod -o -l -lx -latrange -lonrange -elevrange in {absent, strict subset, end points equal to a station's coordinate / partially matching, matches nothing} plus -obsrange, dev(3) in quick and the full 4^9 product in thorough, on verif.data.Data: selected times/lead times/locations and every request compared with the reference; empty selections must be rejected or give no finite number. E2: BFS from the empty command line, event = add one option; every transition runs the driver (--list-times/--list-locations, -m mae csv, -m fcst -x leadtime csv) and is compared with the reference; option sets up to size 3 (thorough 4).",
+   note="trusts: mc/ref/dataset.py selection semantics (appendix B steps 1-3, 6); whole-hour init times; repeated flags excluded"),
 }
 
 def main():
